@@ -4,8 +4,8 @@ from __future__ import annotations
 import typed
 
 ID = "C09"
-THEOREMS = ["follow_spec", "streamOp_spec_ok", "follow_effSound", "follow_effects_are_declared", "streamOp_effects_are_declared", "methodEff_order", "cbEff_log", "cbEff_md", "follow_writer", "follow_appends", "follow_effects_appended", "follow_error_independent", "followL_appends", "no_callback_no_effect", "callback_effect", "class_before_method"]
-LEANCHECKER_MODULES = ["Fadl.Props.FollowSpec", "Fadl.Props.C09Sound", "Fadl.Props.C09Writer", "Fadl.Props.C09"]  # re-checked by leanchecker in the thorough tier
+THEOREMS = ["extract_streamOpQuery", "extractMD_wrapMd", "follow_spec", "streamOp_spec_ok", "follow_effSound", "follow_effects_are_declared", "streamOp_effects_are_declared", "methodEff_order", "cbEff_log", "cbEff_md", "follow_writer", "follow_appends", "follow_effects_appended", "follow_error_independent", "followL_appends", "no_callback_no_effect", "callback_effect", "class_before_method"]
+LEANCHECKER_MODULES = ["Fadl.Props.C09Placement", "Fadl.Props.FollowSpec", "Fadl.Props.C09Sound", "Fadl.Props.C09Writer", "Fadl.Props.C09"]  # re-checked by leanchecker in the thorough tier
 RULE = (
     "generated class models (gen/classes.py: Trk, Cal, Jet, Vec[T](Iterable[T]), JVec(Vec[Jet]), Evt, an optional registered "
     "collection class, two registered functions; 0-4 parameters per method with a random suffix of defaults of int/float/"
@@ -28,7 +28,7 @@ EXPLANATION = (
     "is neither called nor a collection operator's argument contributes nothing. So every declared site fires exactly once, in "
     "that order, class-level before method-level, its MetaData is attached (cbEff_md), and nothing else fires. Corollaries: "
     "follow_effects_are_declared, streamOp_effects_are_declared (the effects Select / SelectMany / Where record = streamOpEff). "
-    "Direction proved: follower accepts => effects are the declared ones (a refused lambda records nothing: the operator raises). "
+    "Placement (Props/C09Placement.lean, Model/StreamQuery.lean): extract_streamOpQuery - the query the operator returns is the operator applied to the source wrapped in one MetaData call per attached dictionary (later ones outside) and to the elaborated lambda, and extract_metadata (the function backends call, C15) finds exactly those dictionaries first, last attached first, then what the source carried, then what sits inside the lambda; the whole query AST of the returned stream is compared with streamOpQuery on every accepted generated lambda (unit streamOpQuery). Direction proved: follower accepts => effects are the declared ones (a refused lambda records nothing: the operator raises). "
     "The specification is also executed against the implementation: for every generated lambda the implementation accepts, the "
     "MetaData chain on the source and the list of callbacks that fired must equal streamOpEff on the lambda as written (unit "
     "streamOpEff(spec); counted as spec:callback-sites-compared / -nonempty in the distribution). "
